@@ -14,7 +14,7 @@ thread_local! {
     static EMITTED: RefCell<HashMap<String, usize>> = RefCell::new(HashMap::new());
 }
 
-fn json_str(s: &str) -> String {
+pub(crate) fn json_str(s: &str) -> String {
     let mut o = String::from("\"");
     for c in s.chars() {
         match c {
